@@ -66,6 +66,10 @@ func (r *Run) makeSched(b *BatchSpec) Scheduler {
 		return &serialSched{rng: NewSplitMix(b.SchedSeed)}
 	case "preempt":
 		return &preemptSched{A: b.PreemptA, K: b.PreemptK, inner: randSched{NewSplitMix(b.SchedSeed)}}
+	case "preempts":
+		// as preempt, but while A is parked the others run one after another
+		// (seeded order) instead of interleaved: nobody among them meets a busy lock
+		return &preemptSched{A: b.PreemptA, K: b.PreemptK, inner: &serialSched{rng: NewSplitMix(b.SchedSeed)}}
 	case "preempt2":
 		return &preempt2Sched{A: b.PreemptA, K: b.PreemptK, B: b.PreemptB, KB: b.PreemptKB, inner: randSched{NewSplitMix(b.SchedSeed)}}
 	case "replay":
@@ -393,7 +397,8 @@ func candidateLogs(snaps []logSnap, lo, hi int) [][]byte {
 		if i+1 < len(snaps) && bytes.HasPrefix(snaps[i+1].bytes, whole) {
 			nb := snaps[i+1].bytes
 			for off := len(whole); off < len(nb); off++ {
-				if nb[off] == '\n' {
+				// (a blank line adds nothing to the state: no candidate of its own)
+				if nb[off] == '\n' && off > 0 && nb[off-1] != '\n' {
 					add(nb[:off+1])
 				}
 			}
@@ -728,10 +733,19 @@ func genBatch(prop string, g *Gen, m *Model, rng *SplitMix) []Cmd {
 			}
 			cmds = append(cmds, c)
 		}
-		if rng.Chance(1, 4) {
+		if rng.Chance(1, 2) {
 			// "and the oldest such task": a writer after which another task is
-			// the oldest ready one, racing the claimers
-			if w, ok := g.aimOldestChange(m, ""); ok {
+			// the oldest ready one - overall, or within the epic one of the
+			// claimers is scoped to - racing the claimers
+			scope := ""
+			for _, c := range cmds {
+				if c.Epic != nil && rng.Chance(2, 3) {
+					scope = *c.Epic
+				}
+			}
+			if w, ok := g.aimOldestChange(m, scope); ok {
+				cmds = append(cmds, w)
+			} else if w, ok := g.aimOldestChange(m, ""); ok {
 				cmds = append(cmds, w)
 			}
 		}
@@ -985,7 +999,22 @@ func genBatch(prop string, g *Gen, m *Model, rng *SplitMix) []Cmd {
 		// ones: set --json and claim <id> re-read the store once they are done)
 		t := taskRef()
 		var first Cmd
-		switch rng.Intn(7) {
+		switch rng.Intn(8) {
+		case 7:
+			// the oldest-ready claim, and somebody finishing and pruning the very
+			// task it takes while it is still composing its reply
+			first = Cmd{Op: "claim", Agent: agent()}
+			best := ""
+			for id := range m.OldestReady("") {
+				if best == "" || id < best {
+					best = id
+				}
+			}
+			if best != "" {
+				t = g.refOf(m, best)
+			}
+			cmds = []Cmd{first, {Op: "set", ID: t, State: sp("done"), Agent: agent()}, {Op: "prune", Yes: true}}
+			return cmds
 		case 0, 1:
 			first = Cmd{Op: "set", ID: t, State: sp(g.oneOf("done", "blocked", "todo", "canceled")), Agent: agent()}
 		case 2:
@@ -1070,6 +1099,11 @@ func runConcSample(bin, prop string, seed uint64, thorough bool) *RunReport {
 	g.BadBias, g.Human = 4, 0
 	g.W["list"], g.W["show"], g.W["where"], g.W["prune_dry"], g.W["init"], g.W["file"] = 0, 0, 0, 0, 0, 1
 	g.W["new_task"] = 30
+	if rng.Chance(1, 2) {
+		// multi-byte and control characters in what writers write: a reader or
+		// a short write may stop in the middle of one
+		g.Text = "unicode"
+	}
 	sc.Config.Clock = []string{"fine", "coarse", "second", "fine", "back", "leap"}[rng.Intn(6)]
 	if (prop == "C13" || prop == "C02") && rng.Chance(1, 3) {
 		sc.Config.Layout = "legacy" // a store that still uses events.jsonl
@@ -1128,15 +1162,19 @@ func runConcSample(bin, prop string, seed uint64, thorough bool) *RunReport {
 		r.ExecStep(st)
 	}
 	inflated := false
-	if (prop == "C01" || prop == "C02") && rng.Chance(1, 6) || prop != "C01" && prop != "C02" && prop != "C13" && !r.M.NoStore && len(r.M.Tasks()) > 0 && rng.Chance(1, 8) {
+	if prop == "C01" && rng.Chance(1, 4) || prop == "C02" && rng.Chance(1, 6) || prop != "C01" && prop != "C02" && prop != "C13" && !r.M.NoStore && len(r.M.Tasks()) > 0 && rng.Chance(1, 8) {
 		// (log length is part of every concurrent property's quantifier: a long
 		// replay gives the runtime of the lock holder time for a GC cycle)
 		inflated = true
-		st := Step{Disk: &DiskOp{Kind: "inflate", N: 12 + rng.Intn(10), Pos: rng.Intn(1 << 16)}}
+		n := 12 + rng.Intn(10)
+		if rng.Chance(1, 3) {
+			n = 2 + rng.Intn(4) // a few hundred KB: several reads, no GC yet
+		}
+		st := Step{Disk: &DiskOp{Kind: "inflate", N: n, Pos: rng.Intn(1 << 16)}}
 		sc.Steps = append(sc.Steps, st)
 		r.ExecStep(st)
 	}
-	if (prop == "C13" || prop == "C02") && !r.M.NoStore && rng.Chance(1, 5) {
+	if (prop == "C13" && rng.Chance(1, 3) || prop == "C02" && rng.Chance(1, 5)) && !r.M.NoStore {
 		// the pre-state carries the torn tail of an append that was killed: the
 		// first writer of the batch repairs it while readers are under way
 		frag := `{"type":"new_task","ts":"2030-01-01T00:00:00Z","data":{"id":"QQQQQQ","uuid":"00000000-0000-4000-8000-000000000000","epic_id":"","state":"todo","title":"torn away","bo`
@@ -1205,6 +1243,9 @@ func runConcSample(bin, prop string, seed uint64, thorough bool) *RunReport {
 		k := p.NVis
 		for i := 0; i <= k; i++ {
 			plans = append(plans, schedPlan{strategy: "preempt", seed: rng.Uint64(), a: a, k: i})
+			if a == sweepers[0] && len(cmds) > 2 {
+				plans = append(plans, schedPlan{strategy: "preempts", seed: rng.Uint64(), a: a, k: i})
+			}
 		}
 		// I/O errors inside a concurrent batch: a read or open of the log
 		// returns EIO/EMFILE to A while the others
